@@ -244,8 +244,8 @@ pub fn property() -> Property {
         rule: "part queries: the C09 generator restricted to non-monotone Horn KBs (wrong-value conclusions, side assignments, dead ends, cycles) x stores x goals x {DFS,BFS,Iterative} x max_depth 0..6 x max_solutions {1,3}; oracle: whenever the query is reported not provable, get_all_facts() after equals before (deep equality); leaked undo frames are reported as labels. Non-trivial: the query was not provable, some rule's condition was true on the initial facts (so the attempt executed something) and the KB has a wrong-value rule / dead end / And of two derivable sub-goals. Part frames: sequences over {begin, commit, rollback, set(k,v), set_nested(k.f,v), remove(k)} on 3 keys x 2 values starting from k1 scalar, k2 object, k3 absent: random of length 1..10 and exhaustive enumeration of all sequences of length 5 (quick) / 6 (thorough) over a 15-letter alphabet; oracle: stack of full deep snapshots (begin pushes, rollback pops and restores, commit pops and discards; both are no-ops on an empty stack), compared with get_all_facts() and snapshot() after every operation, plus the open-frame count (hook). Non-trivial: >= 2 nested frames with a write and a commit/rollback; distinct by operation sequence.",
         assumptions: vec!["engine panics/errors during a query are counted, not judged".into()],
         parts: vec![
-            Part { name: "queries", run: run_a, quick: Budget::Random { cases: 60_000, bytes: 300 }, thorough: Budget::Random { cases: 2_000_000, bytes: 300 }, min_nontrivial_pct: 15 },
-            Part { name: "frames", run: run_b, quick: Budget::Random { cases: 300_000, bytes: 40 }, thorough: Budget::Random { cases: 5_000_000, bytes: 40 }, min_nontrivial_pct: 15 },
+            Part { name: "queries", run: run_a, quick: Budget::Random { cases: 300_000, bytes: 300 }, thorough: Budget::Random { cases: 2_000_000, bytes: 300 }, min_nontrivial_pct: 15 },
+            Part { name: "frames", run: run_b, quick: Budget::Random { cases: 3_000_000, bytes: 40 }, thorough: Budget::Random { cases: 15_000_000, bytes: 40 }, min_nontrivial_pct: 15 },
             Part { name: "frames-exh5", run: run_b, quick: Budget::Exhaustive { param: 5 }, thorough: Budget::Exhaustive { param: 5 }, min_nontrivial_pct: 0 },
             Part { name: "frames-exh6", run: run_b, quick: Budget::Skip, thorough: Budget::Exhaustive { param: 6 }, min_nontrivial_pct: 0 },
         ],
